@@ -78,7 +78,7 @@ PROPS['C04'] = {
                                  'negative-control-0x3fffffff', 'arch-jump:long-form', 'arch-jump:short-form',
                                  'arch-jump:long-form-with-conditional-policy', 'arch-jump-distance-class:255', 'arch-jump-distance-class:256']},
     'units': [
-        {'test': 'TestC04Guards', 'checks': {'quick': 12000, 'thorough': 90000}, 'shards': {'quick': 16, 'thorough': 16},
+        {'test': 'TestC04Guards', 'checks': {'quick': 12000, 'thorough': 600000}, 'shards': {'quick': 16, 'thorough': 16},
          'timeout': {'quick': 300, 'thorough': 3000}},
     ],
 }
@@ -91,14 +91,14 @@ PROPS['C02'] = {
              '= 49x49 pairs x 8 operations x 6 indices x 3 byte-order modes (native = the order the package detected itself, little/big = '
              'override hook with seccomp_data encoded accordingly); (2) rapid-drawn pairs incl. v, v+-1, v xor 2^32, halves swapped, one bit flipped; '
              'oracle = Go uint64 relations; a case is non-trivial iff actual != operand and the two halves fall in different relation '
-             'classes (<,=,>), or for the bit tests the overlap is in exactly one half; distinct by hash of the case JSON'),
+             'classes (<,=,>), or for the bit tests the overlap is in exactly one half; 1/4 of the rapid cases carry 1-3 alternative single-condition entries for the same syscall and argument (OR), with actual values whose high word equals an operand\'s low word; distinct by hash of the case JSON'),
     'assumptions': _COMPILER_ASSUMPTIONS + ['big-endian layout is reached through the byte-order override hook on a little-endian host'],
     'required_classes': {'all': ['%s/arg%d/%s' % (op, a, o) for op in ('Equal', 'NotEqual', 'GreaterThan', 'LessThan', 'GreaterOrEqual', 'LessOrEqual', 'BitsSet', 'BitsNotSet')
                                  for a in range(6) for o in ('native', 'little', 'big')] +
                          ['halves-in-different-relation-classes', 'bits-overlap-in-exactly-one-half']},
     'units': [
         {'test': 'TestC02Grid', 'shards': {'quick': 8, 'thorough': 8}, 'timeout': {'quick': 300, 'thorough': 600}},
-        {'test': 'TestC02Random', 'checks': {'quick': 160000, 'thorough': 2000000}, 'shards': {'quick': 8, 'thorough': 16},
+        {'test': 'TestC02Random', 'checks': {'quick': 160000, 'thorough': 40000000}, 'shards': {'quick': 8, 'thorough': 16},
          'timeout': {'quick': 300, 'thorough': 3000}},
     ],
 }
@@ -112,7 +112,7 @@ PROPS['C07'] = {
              'architecture name of the package and GOARCH values through arch.GetInfo; the verdict is derived from the policy value by an '
              'independent judge written from the statement: defect => (nil, error), no panic; none => accepted; case-variant operations => '
              'rejected or behaving like the canonical operation; a case is non-trivial iff the defect is not at the very first position or the '
-             'policy has >= 2 groups (valid cases: >= 2 groups and conditional entries); distinct by hash of the case JSON'),
+             'policy has >= 2 groups (valid cases: >= 2 groups and conditional entries); kind size-boundary: names-only policies aimed at 4090..4099 instructions, the sizes of the two next smaller policies are measured and extrapolated: a rejected policy that would fit 4096 is a violation; distinct by hash of the case JSON'),
     'assumptions': ['a name counts as unknown iff neither the library table nor the oracle table of the target architecture has it',
                     'all-empty-groups policies, zero-condition entries and undocumented group actions are outside the statement: both outcomes pass'],
     'required_classes': {'all': ['defect:unknown-default-action', 'defect:no-groups', 'defect:unknown-name', 'defect:duplicate-name',
@@ -124,7 +124,7 @@ PROPS['C07'] = {
         {'test': 'TestC07Validation', 'checks': {'quick': 48000, 'thorough': 600000}, 'shards': {'quick': 16, 'thorough': 16},
          'timeout': {'quick': 300, 'thorough': 3000}},
         {'test': 'TestC07Arch', 'timeout': {'quick': 120, 'thorough': 120}},
-        {'test': 'TestC07SizeBoundary', 'checks': {'quick': 400, 'thorough': 8000}, 'shards': {'quick': 8, 'thorough': 16}, 'timeout': {'quick': 300, 'thorough': 1500}},
+        {'test': 'TestC07SizeBoundary', 'checks': {'quick': 400, 'thorough': 40000}, 'shards': {'quick': 8, 'thorough': 16}, 'timeout': {'quick': 300, 'thorough': 1500}},
     ],
 }
 
@@ -136,7 +136,7 @@ PROPS['C05'] = {
              'ERRNO|ENOSYS on x86_64}; a sample (and every degenerate / near-4096 program) is installed on the running kernel by a throw-away child; '
              'second kind: the verifier port itself is compared with the kernel on single-field corruptions of emitted programs (disagreement => inconclusive); '
              'a program case is non-trivial iff some group is empty, or it is longer than 255, or it loads arguments; a differential case iff both reject; '
-             'distinct by hash of the case JSON'),
+             '1/8 of the policies carry an injected defect (whatever is accepted must still be valid) and 1/6 are compiled on a Policy value that compiled another policy before and was overwritten field by field; distinct by hash of the case JSON'),
     'assumptions': ['verifier port agrees with the running kernel (6.18) - itself tested differentially in the same run',
                     'x/net bpf.Assemble is the raw encoder LoadFilter uses'],
     'required_classes': {'all': ['all-groups-empty-attempted', 'program-within-10-of-4096', 'accepted-by-running-kernel', 'kernel:program-within-10-of-4096',
@@ -183,13 +183,13 @@ PROPS['C13'] = {
              '2..16 goroutines released on a barrier compile deep or shallow copies (sharing all slices) while doing arch lookups and text conversions, any race report '
              'fails; text = FilterFlag/Action text forms of 0..15 and random values repeated 64 times; processes = 6..12 fresh processes compile the same seeded corpus '
              'and print digests; a case is non-trivial iff the policy has >= 2 same-name conditional entries (merge path), or copies share slices, or the flag has >= 2 '
-             'known bits, or it is a cross-process round; distinct by hash of the case JSON'),
+             'known bits, or it is a cross-process round; history cases may modify the value in place between compilations (must equal a fresh equal value); unit text-processes compares the text forms of 64/400 fresh processes; distinct by hash of the case JSON'),
     'assumptions': ['schedules are sampled (barrier start, 2..16 goroutines), not enumerated', 'the Go race detector reports the races that occur in the sampled schedules',
                     '"caller\'s policy" = exported fields and slice headers; the unexported arch cache may be filled in'],
     'required_classes': {'all': ['same-name-entries-merged', 'interleaved-with-other-policies', 'shared-slices', 'concurrent', 'text', 'processes', 'text-forms-across-processes', 'modified-between-compilations:default', 'modified-between-compilations:group-action']},
     'units': [
-        {'test': 'TestC13History', 'checks': {'quick': 8000, 'thorough': 90000}, 'shards': {'quick': 8, 'thorough': 16}, 'timeout': {'quick': 300, 'thorough': 3000}},
-        {'test': 'TestC13Concurrent', 'race': True, 'checks': {'quick': 1200, 'thorough': 20000}, 'shards': {'quick': 6, 'thorough': 8},
+        {'test': 'TestC13History', 'checks': {'quick': 8000, 'thorough': 400000}, 'shards': {'quick': 8, 'thorough': 16}, 'timeout': {'quick': 300, 'thorough': 3000}},
+        {'test': 'TestC13Concurrent', 'race': True, 'checks': {'quick': 1200, 'thorough': 60000}, 'shards': {'quick': 6, 'thorough': 8},
          'env': {'GORACE': 'halt_on_error=1'}, 'timeout': {'quick': 400, 'thorough': 3000}},
         {'test': 'TestC13Text', 'checks': {'quick': 2000, 'thorough': 50000}, 'timeout': {'quick': 120, 'thorough': 600}},
         {'test': 'TestC13Processes', 'helpers': ['digest'], 'timeout': {'quick': 300, 'thorough': 1200}},
@@ -216,9 +216,9 @@ PROPS['C14'] = {
                          ['cfg-action:' + a for a in ('kill_thread', 'kill_process', 'trap', 'errno', 'trace', 'log', 'allow')] +
                          ['cfg-op:' + o for o in ('Equal', 'NotEqual', 'GreaterThan', 'LessThan', 'GreaterOrEqual', 'LessOrEqual', 'BitsSet', 'BitsNotSet')]},
     'units': [
-        {'test': 'TestC14Parsers', 'checks': {'quick': 20000, 'thorough': 1000000}, 'shards': {'quick': 2, 'thorough': 16}, 'timeout': {'quick': 300, 'thorough': 3000}},
+        {'test': 'TestC14Parsers', 'checks': {'quick': 20000, 'thorough': 4000000}, 'shards': {'quick': 2, 'thorough': 16}, 'timeout': {'quick': 300, 'thorough': 3000}},
         {'test': 'TestC14ParserNamesExhaustive', 'timeout': {'quick': 300, 'thorough': 300}},
-        {'test': 'TestC14Config', 'checks': {'quick': 8000, 'thorough': 150000}, 'shards': {'quick': 16, 'thorough': 16}, 'timeout': {'quick': 300, 'thorough': 3000}},
+        {'test': 'TestC14Config', 'checks': {'quick': 8000, 'thorough': 600000}, 'shards': {'quick': 16, 'thorough': 16}, 'timeout': {'quick': 300, 'thorough': 3000}},
     ],
 }
 MANIFEST_TEXT['C14'] = {'claim': 'parsers accept exactly the documented names in any ASCII case and return the vendored constants; generated policies rendered to the documented YAML dialect with generated spelling, or marshalled to YAML/JSON, and loaded as the sandbox command does compile to the identical program',
@@ -240,7 +240,7 @@ PROPS['C12'] = {
     'units': [
         {'test': 'TestC12Tables', 'timeout': {'quick': 300, 'thorough': 300}},
         {'test': 'TestC12CrossTable', 'timeout': {'quick': 300, 'thorough': 300}},
-        {'test': 'TestC12ArchMetadata', 'checks': {'quick': 5000, 'thorough': 300000}, 'timeout': {'quick': 300, 'thorough': 1200}},
+        {'test': 'TestC12ArchMetadata', 'checks': {'quick': 5000, 'thorough': 2000000}, 'timeout': {'quick': 300, 'thorough': 1200}},
         {'test': 'TestC12Processes', 'helpers': ['digest'], 'timeout': {'quick': 300, 'thorough': 600}},
     ],
 }
@@ -256,7 +256,7 @@ PROPS['C19'] = {
              'target\'s build context (ENOSYS: 89 on linux/mips*, 38 elsewhere); arch.GetInfo(GOARCH) - the call Assemble makes on such a host - must fail exactly for the GOARCH values '
              'without tables; transplant kind: the non-Linux source files are compiled for the host with their build constraints neutralised and run: generated policies must compile to '
              'byte-identical programs with both constant sets, Supported() false, LoadFilter/SetNoNewPrivs change no process state and issue no seccomp/prctl system call (strace); '
-             'a target is non-trivial iff it is not linux/amd64; a transplant policy iff it contains an errno action or is for x86_64; distinct by hash of the case JSON'),
+             'a target is non-trivial iff it is not linux/amd64; a transplant policy iff it contains an errno action or is for x86_64; unit arch-digest: the same 200/2000 policies compiled by a linux/386 and a linux/amd64 build give the same programs; the transplant run is traced completely: no system call between two markers on the thread calling the stubs; distinct by hash of the case JSON'),
     'assumptions': ['non-Linux and non-x86 code is compiled for its target but executed only on the host (source transplant); a miscompilation by another back end is out of reach',
                     'MIPS errno value (ENOSYS=89) is a literature value: the image only ships x86 and asm-generic headers'],
     'required_classes': {'all': ['target', 'non-linux-target', 'linux-mips-errno-table', 'goarch-without-tables', 'goarch-with-tables', 'transplant', 'transplant-under-strace', 'no-system-call-between-markers', 'same-programs-from-386-and-amd64-builds']},
@@ -288,7 +288,7 @@ PROPS['C08'] = {
                                  'argument-condition-outcome-differs-between-probes', 'killed-by-SIGSYS-at-the-expected-probe', 'probe-denied-EPERM',
                                  'probe-trace-ENOSYS', 'probe-allowed', 'strace-cross-check']},
     'units': [
-        {'test': 'TestC08Kernel', 'checks': {'quick': 960, 'thorough': 20000}, 'shards': {'quick': 16, 'thorough': 16}, 'helpers': _KCHILD,
+        {'test': 'TestC08Kernel', 'checks': {'quick': 960, 'thorough': 100000}, 'shards': {'quick': 16, 'thorough': 16}, 'helpers': _KCHILD,
          'timeout': {'quick': 400, 'thorough': 3300}},
     ],
 }
@@ -304,12 +304,12 @@ PROPS['C09'] = {
              'operation every thread issues the six probes and all Seccomp / Seccomp_filters / NoNewPrivs fields are read; invariants: nil => one more filter on the caller with the policy\'s '
              'decisions in force, and with thread-sync every thread equal to the caller; not attached => non-nil and nothing changed except the caller\'s no_new_privs when requested; '
              'pre-kernel failure => error, no seccomp(2) call, no field changed; Supported() true and changes nothing; a history is non-trivial iff a refused or failed load is followed by a further step; '
-             'distinct by hash of the case JSON'),
+             'one operation may inject the fault \'seccomp(2) answers ENOSYS\' into every command thread; distinct by hash of the case JSON'),
     'assumptions': _KERNEL_ASSUMPTIONS + ['fault kinds are the kernel\'s own refusal modes, provoked by crafted process states; they are enumerated by class, not by injection'],
     'required_classes': {'all': ['not-attached:EINVAL-oversize-program', 'not-attached:EINVAL-unknown-flag-bits', 'not-attached:EACCES-no-privilege', 'not-attached:thread-sync-refused', 'not-attached:ENOSYS-seccomp-unavailable',
                                  'pre-kernel-failure-with-nnp-requested', 'supported-probe', 'supported-after-a-load', 'attached', 'thread-sync-attached', 'uid:0', 'uid:65534']},
     'units': [
-        {'test': 'TestC09Histories', 'checks': {'quick': 640, 'thorough': 12000}, 'shards': {'quick': 16, 'thorough': 16}, 'helpers': _KCHILD,
+        {'test': 'TestC09Histories', 'checks': {'quick': 640, 'thorough': 60000}, 'shards': {'quick': 16, 'thorough': 16}, 'helpers': _KCHILD,
          'timeout': {'quick': 400, 'thorough': 3300}},
     ],
 }
@@ -323,13 +323,13 @@ PROPS['C10'] = {
              'in a futex wait, creating and destroying threads), GOMAXPROCS in {1,2,4,16}, a delay before the load, flags 0..3, no_new_privs; after LoadFilter returned the loader releases the threads; every '
              'thread then issues a probe and reads its own status, threads created afterwards do the same; oracle: thread-sync + nil => every pre-existing, every later and every runtime thread has Seccomp 2 and '
              'its probe is denied; no thread-sync => loader filtered, every pre-existing thread untouched; flags word at the syscall wrapper (and under strace for 10%) == requested; a plan is non-trivial iff '
-             'N >= 2, at least two different states are present and at least one thread was inside a system call; distinct by hash of the case JSON'),
+             'N >= 2, at least two different states are present and at least one thread was inside a system call; 1/4 of the plans carry a fault: another (or the same) thread loaded a filter without thread-sync before (same or different policy), or seccomp(2) answers ENOSYS in the whole process; distinct by hash of the case JSON'),
     'assumptions': _KERNEL_ASSUMPTIONS + ['schedules are sampled by perturbation (thread states, GOMAXPROCS, delays), not enumerated: the harness does not own the kernel scheduler'],
     'required_classes': {'all': ['flag:0', 'flag:1', 'flag:2', 'flag:3', 'state:spin', 'state:nanosleep', 'state:read', 'state:futex', 'state:spawner', 'thread-created-after-load',
                                  'threads>=25', 'strace-flags-word', 'fault:seccomp-ENOSYS', 'fault:another-thread-carries-its-own-filter'],
                          'thorough': ['threads:64']},
     'units': [
-        {'test': 'TestC10ThreadSync', 'checks': {'quick': 400, 'thorough': 8000}, 'shards': {'quick': 16, 'thorough': 16}, 'helpers': _KCHILD,
+        {'test': 'TestC10ThreadSync', 'checks': {'quick': 400, 'thorough': 32000}, 'shards': {'quick': 16, 'thorough': 16}, 'helpers': _KCHILD,
          'timeout': {'quick': 500, 'thorough': 3300}},
     ],
 }
@@ -343,12 +343,12 @@ PROPS['C11'] = {
              'with 0..32 spinning goroutines and GOMAXPROCS in {1,2,4}, caller unlocked or already locked to its thread, one fresh child each; hooks record thread id and no_new_privs at the schedule point and '
              'immediately before seccomp(2); a control goroutine performs the same perturbation unpinned and reports whether it migrated; oracle: requested => load returns nil (also unprivileged), bit set on the '
              'installing thread at install time, same thread as the prctl; not requested => no thread\'s bit changes, unprivileged load fails and installs nothing, privileged load succeeds; strace (10%): '
-             'prctl then seccomp with the same tid; a case is non-trivial iff unprivileged, requested and the control goroutine migrated under the same perturbation; distinct by hash of the case JSON'),
+             'prctl then seccomp with the same tid; a case is non-trivial iff unprivileged, requested and the control goroutine migrated under the same perturbation; 1/4 of the cases are histories with 1-2 earlier no_new_privs loads on other pre-existing threads; distinct by hash of the case JSON'),
     'assumptions': _KERNEL_ASSUMPTIONS + ['the decisive goroutine schedule is forced through the schedule-point hook; other schedules are not enumerated'],
     'required_classes': {'all': ['uid:%d/nnp:%s' % (u, n) for u in (0, 65534) for n in ('true', 'false')] +
                          ['unprivileged+nnp+migrating-perturbation', 'unprivileged-load-refused', 'control-goroutine-migrated', 'strace-order-and-thread', 'after-loads-on-other-threads']},
     'units': [
-        {'test': 'TestC11NoNewPrivs', 'checks': {'quick': 640, 'thorough': 12000}, 'shards': {'quick': 16, 'thorough': 16}, 'helpers': _KCHILD,
+        {'test': 'TestC11NoNewPrivs', 'checks': {'quick': 640, 'thorough': 64000}, 'shards': {'quick': 16, 'thorough': 16}, 'helpers': _KCHILD,
          'timeout': {'quick': 500, 'thorough': 3300}},
     ],
 }
@@ -365,14 +365,14 @@ PROPS['C15'] = {
              'generated position, no seccomp key, empty syscalls, argument index 6, a program the kernel refuses (> 4096 instructions), unprivileged without no_new_privs; the built sandbox command is run on a separate '
              'probe program that first creates a marker file, then issues generated raw probe calls; oracle: invalid => exit status != 0 and no marker; valid => marker exists and every probe result equals the '
              'reference decision (kill_process => the target dies exactly at that probe and the sandbox exits != 0); non-trivial: invalid file whose defect is at a generated (non-first) position, or a valid '
-             'policy under which the target sees both denied and allowed probes, or a kill; distinct by hash of the case JSON'),
+             'policy under which the target sees both denied and allowed probes, or a kill; additional kinds: names_with_args entries without arguments (refused, or applied to every call - never silently dropped) and valid policies that deny execve (the target must not run); distinct by hash of the case JSON'),
     'assumptions': _KERNEL_ASSUMPTIONS + ['the sandbox command is tested as a built binary from the outside (no hooks)'],
     'required_classes': {'all': ['invalid:' + d for d in ('missing-file', 'empty-file', 'yaml-syntax', 'wrong-type', 'unknown-syscall', 'unknown-syscall-conditional', 'unknown-action',
                                                           'unknown-default-action', 'unknown-operation', 'no-seccomp-key', 'empty-syscalls', 'argument-index-6', 'oversize-program',
                                                           'unprivileged-without-nnp', 'binary-garbage', 'entry-without-arguments', 'entry-with-empty-arguments')] +
                          ['valid', 'target-sees-denied-and-allowed-probes', 'target-killed-at-the-expected-probe', 'uid:65534', 'nnp:false', 'valid-policy-that-denies-execve']},
     'units': [
-        {'test': 'TestC15Sandbox', 'checks': {'quick': 800, 'thorough': 16000}, 'shards': {'quick': 16, 'thorough': 16}, 'helpers': _SANDBOX,
+        {'test': 'TestC15Sandbox', 'checks': {'quick': 800, 'thorough': 80000}, 'shards': {'quick': 16, 'thorough': 16}, 'helpers': _SANDBOX,
          'timeout': {'quick': 500, 'thorough': 3300}},
     ],
 }
@@ -388,7 +388,7 @@ PROPS['C16'] = {
              'truncate = a model listing cut at a generated byte; unreadable = directory, /proc/self/mem, missing file; oracle: never panics; unreadable => error; overlong => error, or the result equals the result of the parts before and after '
              '(really read to the end); every result has Name == table[Num]; a result\'s number must be loaded by an instruction of the function it is attributed to; canonical sites (load directly followed by the trigger) are found; '
              'function-concatenation law Extract(F1++F2) == Extract(F1)++Extract(F2) at every split point; a case is non-trivial iff it has >= 2 functions and >= 1 reported site, or is of kind text/overlong/unreadable/a real truncation; '
-             'distinct by hash of the case JSON'),
+             'symbols with blanks as printed for generic shapes, numbers with one of bits 20..31 set; distinct by hash of the case JSON'),
     'assumptions': ['the site model is written from the documented instruction shapes; only containment (possible numbers per function) and canonical sites are asserted, never equality with a reference parser'],
     'required_classes': {'all': ['kind:model', 'kind:text', 'kind:overlong', 'kind:truncate', 'kind:unreadable', 'scope-bait', 'item:raw', 'item:wrapper', 'item:xor', 'item:bare', 'item:load-only',
                                  'overlong-line:first', 'overlong-line:middle', 'overlong-line:last', 'TEXT-only-line', 'trigger-line-with-fewer-than-3-fields', 'parser:i386', 'parser:x86_64',
@@ -411,13 +411,13 @@ PROPS['C17'] = {
              'once the cache file has stopped growing the profiler and the tool are SIGKILLed - the cache is whatever the implementation left), run-toolfail (tool exits 1/2/3/127/255 after n bytes), run-toolmissing, change-binary '
              '(other content at the same path, other listing), then a final normal run; n is taken from the classes: 0, inside the first line, every flush boundary of the 4096-byte writer -1/0/+1, line boundaries, just before / '
              'inside / just after a syscall site, all but one byte, arbitrary fraction; listings come from the site model (5..200 sites, 3..60 distinct syscalls); oracle: every run that exits 0 (in particular the final one) prints '
-             'exactly the profile of a cold-cache run (fresh HOME) for the current binary; a history is non-trivial iff it contains a crash or a tool failure; distinct by hash of the case JSON'),
+             'exactly the profile of a cold-cache run (fresh HOME) for the current binary; a history is non-trivial iff it contains a crash or a tool failure; further operations: tool killed by a signal, two overlapping runs (second fails or is killed), writes to the cache failing beyond RLIMIT_FSIZE with a tool that does not notice; distinct by hash of the case JSON'),
     'assumptions': ['crash = SIGKILL of the profiler\'s process group after its cache file stopped growing; power-failure reorderings of file system writes are not modelled',
                     'the profiler is built with CGO_ENABLED=0 and run as a uid without passwd entry so that $HOME selects a private cache directory'],
     'required_classes': {'all': ['crash-before-first-flush', 'crash-between-flushes', 'tool-exit-nonzero-after-partial-output', 'tool-missing', 'tool-killed-by-signal', 'overlapping-runs', 'cache-write-fails-beyond-size-limit', 'binary-changed', 'final-run-correct-profile',
                                  'binary:amd64', 'binary:386']},
     'units': [
-        {'test': 'TestC17Cache', 'checks': {'quick': 480, 'thorough': 8000}, 'shards': {'quick': 16, 'thorough': 16}, 'helpers': _PROFILER,
+        {'test': 'TestC17Cache', 'checks': {'quick': 480, 'thorough': 24000}, 'shards': {'quick': 16, 'thorough': 16}, 'helpers': _PROFILER,
          'timeout': {'quick': 500, 'thorough': 3300}},
     ],
 }
@@ -431,13 +431,13 @@ PROPS['C18'] = {
              'separated by space/comma/semicolon, flags repeated; names are found syscalls, other table names, names of the other architecture only, unknown names; the two sets are disjoint; the built profiler is run with a '
              'fake `go` tool that prints the generated listing; oracle: the emitted list (YAML through the configuration loader, Go source through go/parser) == sorted duplicate-free (found - blacklist) + (allow ∩ table(arch)); '
              'closure: the YAML profile loaded as the sandbox would and compiled for the binary\'s architecture is executed on every table number, its neighbours and unlisted numbers: exactly the expected names are allowed, '
-             'all others get ERRNO|EPERM; non-trivial: the blacklist removes a found syscall and the allow-list adds a new one, or sites are duplicated; distinct by hash of the case JSON'),
+             'all others get ERRNO|EPERM; non-trivial: the blacklist removes a found syscall and the allow-list adds a new one, or sites are duplicated; names repeat inside a flag set, boundary names (numbers 0, 1, max) are used, 1/5 of the cases write with -out into a file that held a longer profile; distinct by hash of the case JSON'),
     'assumptions': ['the discovered set is known exactly because the listing only contains canonical sites of the site model',
                     'an empty allow-list profile need not load through the configuration path (no claim)'],
     'required_classes': {'all': ['format:config', 'format:code', 'format:default', 'binary:amd64', 'binary:386', 'empty-result', 'names>255', 'closure-checked',
                                  'blacklist-removes-and-allow-adds', 'duplicate-sites', 'out-file-rewritten']},
     'units': [
-        {'test': 'TestC18Profiles', 'checks': {'quick': 480, 'thorough': 6000}, 'shards': {'quick': 16, 'thorough': 16}, 'helpers': _PROFILER,
+        {'test': 'TestC18Profiles', 'checks': {'quick': 480, 'thorough': 32000}, 'shards': {'quick': 16, 'thorough': 16}, 'helpers': _PROFILER,
          'timeout': {'quick': 500, 'thorough': 3300}},
     ],
 }
